@@ -87,6 +87,15 @@ var checks = []Check{
 		Assumptions: []string{"resource kinds not in the mix here (relaxed mailboxes, CRDT, 2PC, nested archetype, raft PersistentLog/CustomInChan) get their abort/commit atomicity checked by C06/C11/C13/C16 scenarios", "SingleOutputChan is not transactional by contract and is exercised in C06 only"},
 		MustProbe:   []string{"attempt_aborted", "abort_after_write_3_resources", "abort_in_read", "kind_mbox_out", "kind_mbox_in", "kind_file", "kind_incmap", "kind_shared"}, MinRunsForProbes: 2000,
 	},
+	{
+		ID: "C06", Pkg: "checks/c06", Instr: coreInstr,
+		QuickRuns: 40000, ThoroughRuns: 2000000, QuickBudgetS: 60, ThoroughBudgetS: 1200, ShrinkS: 45,
+		Rule: "one run = 1-4 sender archetypes and 1-3 receiver archetypes on separate simulated nodes over the real TCP mailboxes or relaxed mailboxes (drawn), with NewMailboxesLength; senders run 1-5 sections of 1-3 sends (relaxed: one send, last operation) to drawn receivers, receivers run sections of 1-3 receives and length reads; sections fail 1-2 times at drawn positions (after sends / after receives); every message is unique per attempt; knobs drawn per run: receiveChanSize 1-5 or 100, read/write/dial time-outs 2 ms-2 s, latency up to 0.5 s, socket buffer 200 B / 2 kB / unbounded, late listeners, stalls up to 3 s; oracles over the history: per (sender, receiver) the obtained sequence is a prefix of / equals the committed-sent sequence, no message of a failed attempt, redelivery after an aborted receive in the same order, batch contiguity (TCP), reported length <= pending, all archetypes finish within 30 simulated minutes; non-trivial = messages delivered and (an abort, a read time-out or a pre-emption); distinct = distinct interleaving digests",
+		Real:        realU,
+		Stub:        stubU,
+		Assumptions: []string{"strict configuration: no connection reset or node isolation is injected; receivers keep their mailbox open until every sender has finished", "InputChan/OutputChan are exercised by C01; SingleOutputChan and raft's CustomInChan are not exercised yet"},
+		MustProbe:   []string{"kind_tcp", "kind_relaxed", "abort_after_send", "abort_after_receive", "read_timeout", "two_or_more_senders", "multi_message_batch_checked"}, MinRunsForProbes: 2000,
+	},
 }
 
 func findCheck(id string) *Check {
